@@ -2,7 +2,7 @@
 Second wave: more of the functions the storage/progress properties (C02, C04, C08, C14, C16, C17, C18) depend on,
 under contract.
 
-  X5..X8  kopf._cogs.structs.dicts: resolve / parse_field (X5), ensure (X6), remove (X7), cherrypick / walk (X8)  -- deductive
+  X5d..X8d  kopf._cogs.structs.dicts: resolve / parse_field (X5d), ensure (X6d), remove (X7d), cherrypick / walk (X8d)  -- deductive
           on arbitrary JSON documents (`vc.json`) for field paths of length 0..3.
 """
 import copy
@@ -118,13 +118,13 @@ def spec_resolve(t, keys):
     return found, missing, nonmap, cur
 
 
-@harness('X5', targets=[f'{DICTS}.resolve', f'{DICTS}.parse_field'], props=['C04', 'C16', 'C18', 'C17'],
+@harness('X5d', targets=[f'{DICTS}.resolve', f'{DICTS}.parse_field'], props=['C04', 'C16', 'C18', 'C17'],
          clauses=['found_returns_value', 'missing_key', 'non_mapping', 'pure', 'parse_field'],
          canaries=['canary.never_raises', 'canary.always_default'],
-         assumes=['X5: documents are arbitrary JSON values (vc.json: any kind, any depth, string keys); paths of 0..3 arbitrary '
+         assumes=['X5d: documents are arbitrary JSON values (vc.json: any kind, any depth, string keys); paths of 0..3 arbitrary '
                   'field names (the loop of resolve is unrolled natively over the concrete path length); longer paths: '
                   'by the same loop body, not machine-checked'])
-def X5(vc):
+def X5d(vc):
     """
     dicts.resolve(d, path[, default]) exactly as its docstring says, for EVERY JSON document d and every path of 0..3 names:
       found_returns_value  every step meets a mapping that has the key  =>  the value at the path is returned (None for null;
@@ -209,18 +209,18 @@ def draw_value(vc, name, keys=()):
     return draw_doc(vc, name, keys)
 
 
-@harness('X6', targets=[f'{DICTS}.ensure'], props=['C04', 'C16', 'C18', 'C08'],
+@harness('X6d', targets=[f'{DICTS}.ensure'], props=['C04', 'C16', 'C18', 'C08'],
          clauses=['exact', 'sets_value', 'present_non_mapping_parent_not_replaced', 'root_rejected'],
          canaries=['canary.never_raises', 'canary.unchanged'],
-         assumes=['X6: d is an arbitrary JSON object; paths of 0..3 arbitrary field names (loop unrolled natively); the value '
+         assumes=['X6d: d is an arbitrary JSON object; paths of 0..3 arbitrary field names (loop unrolled natively); the value '
                   'is None or an arbitrary JSON value'])
-def X6(vc):
+def X6d(vc):
     """
     dicts.ensure(d, path, value) for EVERY JSON object d, every path of 1..3 names and every value:
       exact        if every parent that is PRESENT on the path is a mapping: afterwards d equals the old d with the value at
                    the path, the MISSING parents (and only those) created as mappings holding just the next step, and every
                    other key at every level unchanged (whole-document equality);
-      sets_value   ... and then dicts.resolve (by its specification X5) finds exactly the value at the path;
+      sets_value   ... and then dicts.resolve (by its specification X5d) finds exactly the value at the path;
       present_non_mapping_parent_not_replaced  a parent that is present but not a mapping (null, string, number, list) is not
                    "missing": it is never replaced -- TypeError, d unchanged;
       root_rejected  the empty path raises ValueError, d unchanged.
@@ -263,17 +263,17 @@ def spec_remove(t, keys):
     return ok, t2
 
 
-@harness('X7', targets=[f'{DICTS}.remove'], props=['C04', 'C16'],
+@harness('X7d', targets=[f'{DICTS}.remove'], props=['C04', 'C16'],
          clauses=['exact', 'key_gone', 'only_emptied_parents_removed', 'non_mapping_parent', 'root_rejected'],
          canaries=['canary.never_raises', 'canary.unchanged', 'canary.no_parent_removed'],
-         assumes=['X7: d is an arbitrary JSON object; paths of 0..3 arbitrary field names (the recursion depth is then concrete)'])
-def X7(vc):
+         assumes=['X7d: d is an arbitrary JSON object; paths of 0..3 arbitrary field names (the recursion depth is then concrete)'])
+def X7d(vc):
     """
     dicts.remove(d, path) for EVERY JSON object d and every path of 1..3 names, as its docstring says:
       exact      if no present non-mapping is met on the way: afterwards d equals the old d minus the key at the path, minus every
                  parent on the path that is an empty mapping after that (innermost first); an absent key / absent parent is not an
                  error; every other key at every level is unchanged (whole-document equality);
-      key_gone   ... and then the path does not resolve any more (specification of resolve, X5);
+      key_gone   ... and then the path does not resolve any more (specification of resolve, X5d);
       only_emptied_parents_removed  a parent on the path that still holds another key, or whose value is not a mapping ({} only:
                  "not None, and not False"), stays; keys outside the path are never touched (first-level frame, stated separately);
       non_mapping_parent  a present non-mapping on the way (null, string, number, list): TypeError, d unchanged
@@ -953,16 +953,16 @@ EMPTY_OBJ = J.JObj(EMPTY_FIELDS)
 
 def inlined_dicts(vc):
     """The real dicts.resolve/ensure/remove (mechanically extracted, run on the symbolic documents): inlined callees, each
-    under its own contract X5/X6/X7."""
+    under its own contract X5d/X6d/X7d."""
     out = {f'dicts.{n}': vc.load(DICTS, n).fn for n in ('resolve', 'ensure', 'remove')}
-    for n, c in (('resolve', 'X5'), ('ensure', 'X6'), ('remove', 'X7')):
+    for n, c in (('resolve', 'X5d'), ('ensure', 'X6d'), ('remove', 'X7d')):
         vc.used(f'dicts.{n}', f'{c} (inlined)')
     return out
 
 
 def wf_path(vc, doc, path, what):
     """Precondition on patches (and on essences for clear/build): every PRESENT parent on the storage's own path is a mapping --
-    those parents are only ever created by dicts.ensure (X6) / by the framework."""
+    those parents are only ever created by dicts.ensure (X6d) / by the framework."""
     ok, _ = spec_ensure(jt(doc), path, NULL)
     if vc.concrete:
         if not holds(vc, ok):
@@ -1012,6 +1012,8 @@ def draw_record(vc, verbose_nones=True):
 
 def draw_key(vc):
     """A handler id: an arbitrary string (dots and slashes included), or -- second case -- a concrete dotted id."""
+    import os
+    if os.environ.get('W2_KEY'): return 'fn/spec.x'
     return vc.str('key') if vc.nondet(2, 'key: arbitrary | concrete dotted') == 0 else 'fn/spec.x'
 
 
@@ -1041,7 +1043,7 @@ def copy_of(x):
                   'configurations (default; name+custom fields; one-level tuple fields)'])
 def E6(vc):
     """
-    progress.StatusProgressStorage, method by method, for EVERY body / patch / handler id / record (dicts.* inlined: X5-X7):
+    progress.StatusProgressStorage, method by method, for EVERY body / patch / handler id / record (dicts.* inlined: X5d-X7d):
       configured_paths   field / touch_field are the configured dotted paths with {name} filled in (defaults: status.kopf.progress / .dummy);
       fetch_own_record   the value at <field>.<id> of the body when every step is a mapping holding the next name (None for null);
       fetch_no_data      None when the record, the container or any parent is missing, or a parent ABOVE the container is not a mapping;
@@ -1061,12 +1063,16 @@ def E6(vc):
     from kopf._cogs.configs import progress
     from kopf._cogs.structs import bodies
     cfg = vc.nondet(3, 'configuration')
+    import os
+    if os.environ.get('W2_CFG') and cfg != int(os.environ['W2_CFG']): vc.assume(False, 'debug')
     st = [lambda: progress.StatusProgressStorage(),
           lambda: progress.StatusProgressStorage(name='op2', field='status.{name}.handlers', touch_field='status.{name}.touched'),
           lambda: progress.StatusProgressStorage(field=('progress',), touch_field=['dummy'])][cfg]()
     field = [('status', 'kopf', 'progress'), ('status', 'op2', 'handlers'), ('progress',)][cfg]
     touch_field = [('status', 'kopf', 'dummy'), ('status', 'op2', 'touched'), ('dummy',)][cfg]
     method = ['__init__', 'fetch', 'store', 'purge', 'touch', 'clear', 'nowrite'][vc.nondet(7, 'method')]
+    import os
+    if os.environ.get('W2_METHOD') and method != os.environ['W2_METHOD']: vc.assume(False, 'debug')
     stubs = inlined_dicts(vc)
     if method == '__init__':
         me = Opaque('self')
